@@ -31,11 +31,19 @@ def budget(tier):
             "soft_seconds": 300 if tier == "quick" else 3000}
 
 
+def _search(seed):
+    from .. import search as S
+    feat = ["superset-before-subset", "min-card-set-after-larger"][seed % 2]
+    return S.worldset_search(seed, feat, max_candidates=6000, need_lex_tie=(seed % 2 == 1))
+
+
 @st.composite
 def _case(draw, tier):
     q = tier == "quick"
     c = draw(st.one_of(
         gen.strong_case(1, 5, 6, qlo=3, qhi=4, unfals=True),
+        gen.multiclause_case(5, nq=3),
+        st.integers(0, 2**40).map(_search),
         gen.weak_case(1, 5, 6, qlo=3, qhi=4),
         rel.medium_case(8, 20 if q else 40, 20 if q else 40, nq=3),
         rel.corpus_case(30 if q else 100, 30 if q else 100, nq=2),
